@@ -87,7 +87,7 @@ InitialInput == ("in" :> [n |-> "x", i |-> Empty])
 NewFrame(gg, input) ==
   [g |-> gg, st |-> "route", outs |-> (START :> input), chosen |-> Empty, pending |-> Empty, running |-> {}, ins |-> Empty,
    status |-> [n \in GNodes(gg) |-> "unk"], step |-> 0, fresh |-> FALSE,
-   cleared |-> {}, afterDue |-> {}, aborted |-> {}, redo |-> {}, preDone |-> {}, expect |-> Empty,
+   cleared |-> {}, afterDue |-> {}, afterBlock |-> {}, aborted |-> {}, redo |-> {}, preDone |-> {}, expect |-> Empty,
    trail |-> <<>>, canceled |-> FALSE]
 
 \* ---------- any-predecessor ----------
@@ -101,7 +101,7 @@ PAdvance(f) ==
      ELSE IF T = {} THEN [f EXCEPT !.st = "expect_stuck"]
      ELSE IF \E d \in T : ~ms[d].ok THEN [f EXCEPT !.st = "expect_dup"]
      ELSE [f EXCEPT !.st = "exec", !.pending = [d \in T |-> ms[d].v], !.outs = Empty, !.chosen = Empty,
-                    !.step = f.step + 1, !.fresh = TRUE]
+                    !.step = f.step + 1, !.fresh = TRUE, !.afterBlock = f.afterDue]
 
 \* ---------- all-predecessor (incremental trigger rule; covers batch and eager execution) ----------
 Decided(f, p) == \A b \in BranchesOf(f.g, p) : b \in DOMAIN f.chosen
@@ -140,6 +140,12 @@ Norm(f) == IF IsDag(f.g) THEN DView(f)
 StepLimitHit(f) == ~IsDag(f.g) /\ f.st = "exec" /\ f.fresh /\ f.step > MaxSteps(f.g)
 CanExec(f) == IF IsDag(f.g) THEN f.st = "route" ELSE f.st = "exec"
 DeadEnd(f) == f.st \in {"expect_stuck", "expect_endskipped"}
+\* a run that has nothing left to execute fails either way; the engine tests the step limit first
+LimitAtDeadEnd(f) == ~IsDag(f.g) /\ f.st = "expect_stuck" /\ f.step + 1 > MaxSteps(f.g)
+\* after-nodes whose completion must be reported before one of their successors starts: in lock-step mode those of
+\* earlier supersteps (a successor running in the SAME superstep was not triggered by them); in all-predecessor mode
+\* a successor can only become due once the after-node has finished
+Blockers(f) == IF IsDag(f.g) THEN f.afterDue ELSE f.afterBlock
 
 --------------------------------------------------------------------------------
 (* The rule as a pure function:  Apply(S, e)  consumes one observation e     *)
@@ -198,7 +204,7 @@ Open(gg, V, p) == LET n == SubNode(gg, p) IN (p :> NewFrame(SubOf(gg, n), V[""].
 \* why a graph node may not start (checked when its frame opens)
 OpenWhy(gg, V, p) == LET f == V[""]  n == SubNode(gg, p) IN
   IF n \in IBefore(f.g) /\ n \notin f.cleared THEN "before-node-ran-without-interrupt"
-  ELSE IF \E a \in f.afterDue : n \in Succs(f.g, a) THEN "successor-of-after-node-started"
+  ELSE IF \E a \in Blockers(f) : n \in Succs(f.g, a) THEN "successor-of-after-node-started"
   ELSE "ok"
 
 --------------------------------------------------------------------------------
@@ -210,7 +216,7 @@ ExecWhy(f, e, isAbort) == LET n == e.n IN
   ELSE IF n \notin DOMAIN f.pending THEN (IF IsDag(f.g) /\ n \in GNodes(f.g) /\ f.status[n] # "unk" THEN "node-executed-twice" ELSE "exec-of-node-not-triggered")
   ELSE IF f.pending[n] # e.i THEN "wrong-input"
   ELSE IF n \in IBefore(f.g) /\ n \notin f.cleared THEN "before-node-ran-without-interrupt"
-  ELSE IF \E a \in f.afterDue : n \in Succs(f.g, a) THEN "successor-of-after-node-started"
+  ELSE IF \E a \in Blockers(f) : n \in Succs(f.g, a) THEN "successor-of-after-node-started"
   ELSE IF f.g.state /\ n \notin f.preDone THEN "body-before-pre-handler"
   ELSE IF f.g.state /\ e.st # f.trail THEN "state-trail-mismatch"
   ELSE IF isAbort /\ n \notin RerunNodes(f.g) THEN "abort-of-non-rerun-node"
@@ -279,7 +285,7 @@ InfoWhy(gg, V, p, info) == LET f == V[p]  subs == {SubNode(gg, q) : q \in Active
   ELSE LET badq == {q \in ActiveSubs(V, p) : InfoWhy(gg, V, q, info.sub[SubNode(gg, q)]) # "ok"} IN
        IF badq # {} THEN (LET q == CHOOSE x \in badq : TRUE IN InfoWhy(gg, V, q, info.sub[SubNode(gg, q)]))
        ELSE "ok"
-AfterInterrupt(f, info) == [f EXCEPT !.cleared = Range(info.before), !.afterDue = {}, !.aborted = {}, !.redo = f.aborted]
+AfterInterrupt(f, info) == [f EXCEPT !.cleared = Range(info.before), !.afterDue = {}, !.afterBlock = {}, !.aborted = {}, !.redo = f.aborted]
 ExpSets(gg) == IF gg.noid THEN <<>> ELSE <<"cp-" \o gg.id>>
 
 OnInterrupt(S, e) ==
@@ -317,7 +323,7 @@ ErrorWhy(gg, V, e) == LET c == e.class IN
   ELSE IF c = "panic" THEN
        (IF ~\E x \in Failing(V, "panic") : e.path = PathOf(gg, x[1]) \o <<x[2]>> THEN "panic-error-names-wrong-node-path" ELSE "ok")
   ELSE IF c = "maxsteps" THEN
-       (IF ~\E p \in DOMAIN V : StepLimitHit(V[p]) /\ e.path = PathOf(gg, p) THEN "max-steps-error-not-expected"
+       (IF ~\E p \in DOMAIN V : (StepLimitHit(V[p]) \/ LimitAtDeadEnd(V[p])) /\ e.path = PathOf(gg, p) THEN "max-steps-error-not-expected"
         ELSE IF ~e.is THEN "max-steps-sentinel-not-matchable" ELSE "ok")
   ELSE IF c = "canceled" THEN
        (IF ~CancelRan(V) THEN "canceled-without-cancel" ELSE IF ~e.is THEN "context-error-not-matchable" ELSE "ok")
